@@ -65,7 +65,7 @@ def run(ck, tier):
     except Exception as e:
         ck.refuted("R-C01-units", "internal:%s" % type(e).__name__, "", "rule could not run: %s" % e)
     from ..prover import Budget
-    for sub in (_consumers, _lexer, _loops, _spans, _precond, _total, _twin_scans, _md_breaks, _matchlen, _div, _intparse):
+    for sub in (_consumers, _lexer, _loops, _spans, _precond, _total, _twin_scans, _md_breaks, _matchlen, _div, _intparse, _typst_range, _kept_neighbour):
         try:
             sub(ck, p)
         except Budget as e:
@@ -1188,3 +1188,91 @@ def _intparse(ck, p):
         ck.refuted(rule, "%s:%s" % (keyname(p, f), method(t)), f.loc(t2["ln"]), "%s of the result of %s into %s: for a run of valid digits that does not fit the type the parse returns Err(PosOverflow) and this panics - e.g. a 0x-prefixed literal with more than 16 hex digits (an address, a digest); the text is typed digit by digit, so the panic arrives with one keystroke" % (method(t2), method(t), ty))
     if not bad:
         ck.proved(rule, "integer-parses", "", "%d integer parse(s) of text in the front ends; none is unwrapped" % n)
+
+
+# ---------------------------------------------------------------------------------------------------
+def _typst_range(ck, p):
+    """typst-syntax represents a child that is missing from the source (`#set ` before its target is typed,
+    `#f(..)`) by a default node with a *detached* span, for which Source::range returns None."""
+    rule = "R-C01-detached"
+    ck.rule(rule, "the Typst front end never unwraps Source::range(span): for a child that is missing from the source - every state of a code expression while it is being typed - typst-syntax's typed accessors return a default node with a detached span, and range() is None")
+    n = 0
+    bad = []
+    for f in sorted((g for g in p.fns.values() if g.name.startswith("harper_typst::")), key=lambda g: g.name):
+        pv = None
+        for bi, t in f.calls():
+            i = norm(inst_of(t) or def_of(t) or "")
+            if not (method(t) == "range" and "typst_syntax" in i and "source" in i.lower()):
+                continue
+            n += 1
+            pv = pv or Prov(f)
+            for b2, t2 in f.calls():
+                if method(t2) in ("unwrap", "expect", "unwrap_unchecked") and t2["args"] and any(o[0] == "call" and o[1] == bi for o in pv.trace_operand(t2["args"][0])):
+                    bad.append((f, t2))
+    ck.floor(rule, "Source::range calls in harper-typst", n, 2)
+    seen = set()
+    for f, t2 in bad:
+        k = "%s:range-unwrap" % keyname(p, f)
+        if k in seen:
+            continue
+        seen.add(k)
+        ck.saw(f)
+        ck.refuted(rule, k, f.loc(t2["ln"]), "%s of Source::range(span): the span of a node that is missing from the source is detached and has no range - `#set `, `#show : `, `#for x in `, `#f(..)`, `#{a.b.}` (what a user has on screen while typing a code expression) panic here" % method(t2))
+    if not bad:
+        ck.proved(rule, "range-results", "", "%d Source::range call(s); none is unwrapped" % n)
+
+
+# ---------------------------------------------------------------------------------------------------
+def _kept_neighbour(ck, p):
+    """byte_spans_to_char_spans drops spans that overlap an earlier one and then walks the rest assuming they
+    are disjoint and ascending (it slices source[last_end..start]).  The filter therefore has to compare each
+    span with the last one it KEPT.  Comparing with the previous element of a copy taken before the filtering
+    lets a span through whose predecessor was itself dropped: outer comment kept, first inner comment dropped,
+    second inner comment compared with the dropped one - kept - and the slice runs backwards."""
+    rule = "R-C01-kept"
+    ck.rule(rule, "the overlap filter in front of byte_spans_to_char_spans' cursor walk compares each span with the last span it kept (a running state assigned where it returns true), not with an element of a copy of the unfiltered vector: the walk slices source[previous end .. next start] and panics when a kept span starts inside the previous kept one (two sibling comments nested in a third)")
+    byk = fns_by_key(p)
+    fs = byk.get("harper_tree_sitter::byte_spans_to_char_spans")
+    if not ck.anchor(rule, "harper_tree_sitter::byte_spans_to_char_spans", fs):
+        return
+    f = fs[0]
+    ck.saw(f)
+    pv = Prov(f)
+    rets = [(bi, t) for bi, t in f.calls() if method(t) in ("retain", "retain_mut", "dedup_by", "filter")]
+    key = "byte_spans_to_char_spans:overlap-filter"
+    if not rets:
+        ck.undecided(rule, key, f.span, "no retain / dedup_by on the span vector found: how overlapping spans are removed is not of a recognised form")
+        return
+    clones = {t["dest"][0] for bi, t in f.calls() if method(t) == "clone" and t.get("dest") and "Vec<" in (f.local_tystr(t["dest"][0]) or "")}
+    verdict = None
+    for bi, t in rets:
+        for x in pv.trace_operand(t["args"][-1]):
+            if not (x[0] == "agg" and x[1] == "closure" and x[2] in p.fns):
+                continue
+            c = p.fns[x[2]]
+            ck.saw(c)
+            ups = c.get("upvar_tys") or []
+            reads_copy = any(method(t2) in ("get", "index", "get_unchecked", "first", "last", "iter") and t2["args"] and "Vec<" in (c.local_tystr(place_of(t2["args"][0])[0]) or "") + str(c.local_tystr(1)) and "Span" in str(c.local_tystr(1)) for _, t2 in c.calls())
+            idx_copy = any(method(t2) in ("get", "index", "get_unchecked") for _, t2 in c.calls())
+            cpv = Prov(c)
+
+            def through_upvar(l):
+                return any(kind == "assign" and x["rv"]["k"] == "use" and place_of(x["rv"]["op"]) and place_of(x["rv"]["op"])[0] == 1 for (_, _, kind, x) in cpv.defs.get(l, []))
+            state_writes = []
+            for b in c.blocks:
+                if b["cleanup"]:
+                    continue
+                keeps = any(sx["k"] == "assign" and sx["lhs"] == [0] and sx["rv"]["k"] == "use" and str(sx["rv"]["op"].get("k", {}).get("txt")) == "true" for sx in b["s"])
+                for sx in b["s"]:
+                    if sx["k"] == "assign" and len(sx["lhs"]) >= 2 and (sx["lhs"][0] == 1 or through_upvar(sx["lhs"][0])) and keeps:
+                        state_writes.append(sx)
+            if idx_copy and clones:
+                verdict = ("refuted", c.loc(c.blocks[0]["t"].get("ln", 0)) if c.blocks else f.span)
+            elif state_writes and not idx_copy:
+                verdict = verdict or ("proved", f.span)
+    if verdict is None:
+        ck.undecided(rule, key, f.span, "the filter closure neither indexes a copy of the vector nor keeps a running state: not of a recognised form")
+    elif verdict[0] == "refuted":
+        ck.refuted(rule, key, verdict[1], "the filter decides by an element of a copy of the vector taken before filtering (its sorted predecessor), which may itself have been removed: with two sibling comments nested in a third (Scala `/* /* one */ /* two */ */`) the second inner span is compared with the dropped first one, kept, and the conversion then slices source[25..12] and panics")
+    else:
+        ck.proved(rule, key, f.span, "the filter keeps a running state that it assigns where it keeps a span, and indexes no copy of the vector")
